@@ -382,6 +382,26 @@ var families = []family{
 		}
 		return msg6(tlv(16, v))
 	}},
+	// every name-bearing sub-option or item repeated, each with a compressed name of its own (a pointer back into the
+	// same sub-option): NTP server FQDN sub-options, and the same names as separate FQDN / search-list options
+	{"ntp-fqdn-suboptions-compressed", "v6", false, func(n int) []byte {
+		var v []byte
+		for len(v)+11 <= n-8 {
+			v = append(v, tlv(3, []byte{1, 'x', 0, 1, 'y', 0xC0, 0})...)
+		}
+		return msg6(tlv(56, v))
+	}},
+	{"compressed-name-options", "v6", false, func(n int) []byte {
+		var v []byte
+		for i := 0; len(v)+12 <= n-4; i++ {
+			if i%2 == 0 {
+				v = append(v, tlv(24, []byte{1, 'x', 0, 1, 'y', 0xC0, 0})...)
+			} else {
+				v = append(v, tlv(39, []byte{0, 1, 'x', 0, 1, 'y', 0xC0, 0})...)
+			}
+		}
+		return msg6(v)
+	}},
 	{"bootfileparam-items", "v6", false, func(n int) []byte {
 		v := []byte{}
 		for len(v)+2 <= n-8 {
